@@ -24,7 +24,7 @@ func genSessionCase(rng *simrt.Rand, tier string, allowAL bool) *Case {
 	if tier == "thorough" {
 		max = 70
 	}
-	c := genEvCase(rng, tier, evGenOpts{Kinds: []string{"session"}, LateRows: 0.06, MaxRows: max, AllowAL: allowAL, Adversary: true})
+	c := genEvCase(rng, tier, evGenOpts{Kinds: []string{"session"}, LateRows: 0.06, MaxRows: max, AllowAL: allowAL, Adversary: true, Burst: true})
 	return c
 }
 
@@ -427,6 +427,9 @@ func checkSessionsInst(e *Env, sp *evSpec, l *evLedger, prop string, inst int) s
 	}
 	if len(perKey) > 1 {
 		e.Probe("multi_key")
+	}
+	if e.C.xBool("burst") {
+		e.Probe("burst_behind_blocked_output")
 	}
 	if inst == 0 {
 		e.R.Summary = map[string]any{"kind": "session", "timeout": durSQL(timeout), "ooo": durSQL(sp.OOO), "al": durSQL(sp.AL), "rows": len(l.Rows), "sessions": len(all), "keys": len(perKey)}
